@@ -130,10 +130,10 @@ structure UParams where
   base8 : Int
 
 /-- `p?gstrf_SetupSpace(work, lwork)` as written: `lwork = 0` selects the system allocator and leaves the stack descriptor
-alone, `lwork > 0` selects the caller's buffer and resets every field of the descriptor, `lwork < 0` (the query) touches nothing. -/
+alone, `lwork > 0` selects the caller's buffer and resets every field of the descriptor (usable length rounded down to a multiple of 8), `lwork < 0` (the query) touches nothing. -/
 def setupSpace (old : UState) (lwork : Int) : UState :=
   if lwork = 0 then { old with mode := .system }
-  else if lwork > 0 then { mode := .user, st := UStack.setup lwork }
+  else if lwork > 0 then { mode := .user, st := UStack.setup (lwork - lwork % 8) }   -- the usable length is rounded down to a multiple of sizeof(double)
   else old
 
 inductive UOp where
